@@ -37,6 +37,48 @@ CHECKS = {
     "C14": ("translation_validation",
             "structural clause only: no alloc callee, no virtual call, no dyn Self callee, no unsizing, no Box/Rc/Arc/Vec/String/dyn types beyond the user's signature in any generated body/signature of static-delegation expansions",
             "allocation counts are not measured; the structural fact that makes them equal is decided", "static analysis: callee/adjustment/type inventory of generated bodies", "DESIGN.md §3 C14"),
+    "C02": ("translation_validation",
+            "twin diff over the whole corpus: every item of the attribute-stripped twin occurs token-identical and in order in the real expansion; entraited fn unchanged with trait+impl after it; module items are an identical prefix, generated trait+impl at the end inside, `use` after; impl-block items identical and in order inside an inherent impl, trait impl beside",
+            "bounded on corpus items; same rustc pretty printer on both sides; spans/whitespace not compared",
+            "static analysis: token-tree comparison of -Zunpretty=expanded output against an attribute-stripped twin", "DESIGN.md §3 C02"),
+    "C03": ("translation_validation",
+            "bounded signature matrix: compiles incl. borrowck; fn-pointer coercion witnesses (fn and trait method coerced to one pointer type); fn_sig(trait method) == fn_sig(original) with deps replaced by the receiver; generic-parameter partition (trait xor method)",
+            "totality over the signature grammar is NOT claimed; bounded matrix + uniform rule over all corpus expansions",
+            "static analysis: compile-pass type-identity witnesses + resolved fn_sig comparison", "DESIGN.md §3 C03"),
+    "C09": ("translation_validation",
+            "twin diff restricted to entraited traits: attributes (subsequence, additions only mock derivations), header tokens, item list, per-method attributes/signature/default body, with the documented async rewrite normalised",
+            "bounded on corpus traits; two recorded known findings (associated types, default bodies)",
+            "static analysis: structural token-tree comparison against the trait as written", "DESIGN.md §3 C09"),
+    "C10": ("exploration",
+            "the full lattice the property names (252 option points x 2-4 configurations), observed statically per point: presence of `impl Trait for unimock::Unimock`, of the mockall marker, and the impl target; oracle transcribed from the property text",
+            "exhaustive over the named lattice; mockall is a 20-line stub proc-macro that emits a marker item",
+            "static analysis: exhaustive enumeration + impl/def inventory from the type-checked expansion", "DESIGN.md §3 C10"),
+    "C11": ("translation_validation",
+            "type-checked HIR of every unimock-generated `impl Trait for Unimock`: eval::<MockFn>(self, (params in order)); MockFn is the struct named by mock_api; Unmock arm iff generic deps or no_deps, calling the original (resolved DefId) with (self, tuple bindings by position)",
+            "unimock's runtime matching is outside this repository and not analysed",
+            "static analysis: resolved callee/operand structure of the mock impl", "DESIGN.md §3 C11"),
+    "C15": ("other",
+            "(a) inventory of all panic-capable operations in the MIR of entrait_macros; constant identifier/lifetime literals and insert(0) machine-discharged, the rest matched against a reviewed table keyed by (callee, type arguments | message) with counts; (b) 48 negative witnesses: every misuse gets a diagnostic (documented ones their message at the offending token), never a proc-macro panic; (c) no positive witness panics",
+            "reviewed reasons in rules/c15_discharge.json are trusted; syn's parser is trusted not to panic",
+            "static analysis: MIR panic-site audit + compile-fail witnesses (rustc diagnostics, no execution)", "DESIGN.md §3 C15"),
+    "C16": ("exploration",
+            "exhaustive over all pattern lists of length 1..2 (quick) / 1..3 (thorough, also inside modules) over a 13-symbol alphabet: compiles, generated names plain/distinct/not the fn name, naming clause, positional forwarding (R-DELEG)",
+            "small-scope: lists beyond length 3 are not covered",
+            "static analysis: exhaustive small-scope enumeration + resolved parameter names/operands", "DESIGN.md §3 C16"),
+    "C17": ("exploration",
+            "metamorphic pairs of attribute lists the property declares equivalent (bare vs =true, =false vs omitted, all permutations of option subsets, macro-variant shorthands, feature fallback) must expand to equal token streams; acceptance of every option x target against the option table parsed from src/lib.rs docs",
+            "cross-feature clause decided as same-feature pair + C10 lattice; one known finding (no_deps accepted on mod)",
+            "static analysis: token-stream equality of sibling expansions + diagnostics table cross-check", "DESIGN.md §3 C17"),
+    "C18": ("translation_validation",
+            "over the twin-paired corpus: no user attribute copied onto generated traits/impls, no parameter attributes in generated signatures, trait-method attributes mirrored on delegating methods, marker attributes and a foreign attribute macro occur exactly once, cfg-disabled trait methods absent; cfg-disabled fns in modules/impl blocks (two known findings)",
+            "bounded on attribute placements in the corpus", "static analysis: token-tree attribute inventory of expansions", "DESIGN.md §3 C18"),
+    "C19": ("translation_validation",
+            "G: complete inventory of identifier literals the generator can emit (from MIR constants), each classified (keyword / reserved / crate root / ::core path segment with its parent); W: #![no_std] hostile crate with decoys shadowing every referenced name and traits named Sync/Send/Future/AsRef/Impl — compiles, and all resolved predicates/bounds/callees are the ::core / implementation definitions",
+            "the literal-inventory rule is a necessary condition; the hostile crate is the behavioural verdict on its matrix",
+            "static analysis: MIR literal inventory + resolved-path checks on a hostile witness crate", "DESIGN.md §3 C19"),
+    "C20": ("other",
+            "effect audit of every MIR body of entrait_macros: no static/TLS access, no env/time/fs/net/process/thread/sync/io callee (stdout only in the shared dispatcher), no ptr-to-int casts, HashSet/HashMap only through membership operations, entry points share one dispatcher with capture-free closures, no build script, deps limited to syn/quote/proc-macro2; positive controls must fire",
+            "determinism of syn/quote/proc_macro2/std/rustc trusted", "static analysis: MIR effect / hash-order audit", "DESIGN.md §3 C20"),
 }
 
 NOT_YET = {
